@@ -19,7 +19,7 @@ def templates(ctx):
     for t in C02.templates(ctx):
         # writer direction: symbolic *integral* numbers need int<->float cast reasoning that z3 does not finish; they are
         # covered by the round trip of C02, here the writer is compared on the listed concrete numbers and non-integral floats
-        if not t['name'].startswith(('num-int32', 'num-dec', 'num-unit-', 'num-any-unit')) and t['name'] not in ('coord',):
+        if not t['name'].startswith(('num-int16', 'num-dec', 'num-unit-', 'num-any-unit')) and t['name'] not in ('coord',):
             T.append(dict(t, name='w:' + t['name'], dir='w'))
         T.append(dict(t, name='r:' + t['name'], dir='r'))
     return T
